@@ -93,8 +93,6 @@ Proof.
     + intros o E. inversion E. subst. exact Hco.
 Qed.
 
-Definition documented_outcome (r : result placement) : Prop :=
-  (exists pl, r = Ok pl) \/ r = Failed E_insufficient \/ r = Failed E_invalid.
 
 Theorem entry_points_documented_errors : forall vr m cs,
   wf_problem vr m cs -> consistent cs ->
